@@ -8,7 +8,7 @@ RULE = ('(b) linking: the translator harness/linkgraph.py regenerates lean/Knee/
         'attribute chain on an imported module, every intra-package call site) and the Lean kernel decides it (theorem all_resolve, decide +kernel); offenders are '
         'exhibited by calling the enclosing function. (a) purity/determinism/layout: every public function of the registry (all functions exercised by C01-C19) is '
         'called on C-ordered, Fortran-ordered, strided-view, int64 and float64 representations of the same values; arguments (arrays AND lists) are deep-snapshotted '
-        'before and compared after; a second call must return identical results. non-trivial = function returned a non-empty result; (function, input) new')
+        'before and compared after; a second call must return identical results; plus an int64-vs-float64 sweep of 16 point-taking functions over integer curves (near-chord, decay, walk). non-trivial = function returned a non-empty result; (function, input) new')
 ASSUMPTIONS = ['(a) is decided by observation, not by a theorem: aliasing, in-place writes and hidden module state are runtime behaviour the value-level model cannot exhibit (partial)',
                'int64 representation is only used when every value is integral']
 GEN_FILE = os.path.join(core.LEAN_DIR, 'Knee', 'Generated', 'LinkTable.lean')
